@@ -307,13 +307,6 @@ Proof.
 Qed.
 
 (** * sequences of decrements / increments at one word index *)
-Fixpoint dec_all_lit (l : list pair) (idx : nat) (k : N) (st : stats) : result stats :=
-  match l with
-  | [] => Ok st
-  | q :: r => st' <- st_dec st q idx k ;; dec_all_lit r idx k st'
-  end.
-Definition add_all_lit (l : list pair) (idx : nat) (k : N) (st : stats) : stats :=
-  fold_left (fun st q => st_add st q idx k) l st.
 
 Lemma dec_all_app : forall l1 l2 idx k st,
   dec_all_lit (l1 ++ l2) idx k st = (st' <- dec_all_lit l1 idx k st ;; dec_all_lit l2 idx k st').
